@@ -1,4 +1,248 @@
-import Gp.Model.PcapNgWrite
-import Gp.Model.PcapNgMem
+import Gp.Lemmas.PcapNgPrefix
+import Gp.Lemmas.PcapNgRT9
+/-
+  C14 (pcapng part) — capture files round-trip; a truncated file yields a true prefix of packets.
+
+  Models: `Gp/Model/PcapNg.lean` (NgReader), `Gp/Model/PcapNgWrite.lean` (NgWriter), `Gp/Model/PcapNgMem.lean`
+  (where the data bytes of the copying / zero-copy call live).  Definitions used in the statements
+  (Gp/Lemmas/PcapNgPrefix.lean, PcapNgRT3/4/6/8/9.lean):
+
+    readFile cfg inp   : NewNgReader on `inp`, then calls until the first one that fails:
+                         (packets, final error, final reader)                       [Gp/Model/PcapNg.lean]
+    readFileE cfg inp  : the same, every packet paired with the offset of `inp` reached when it was returned,
+                         plus the offset reached by the failing call
+    ShortE e           : e is io.EOF, io.ErrUnexpectedEOF, or an error wrapping one of them (`werr`: the reader
+                         wraps read errors inside name-resolution / decryption-secrets blocks with fmt.Errorf %v)
+    isGzip inp         : the input starts with the gzip magic (then it is handed to compress/gzip: not modelled)
+    writeFile f        : bytes written by NewNgWriterInterface(f.sect, f.if0) + the calls `f.items` + Flush, and the
+                         number of calls that returned an error                     [Gp/Model/PcapNgWrite.lean]
+    WfFile cfg f       : strings/option values shorter than 2^16, numbers within their fields, every block shorter
+                         than 2^32, every call accepted by the writer; packets on interfaces of another link type than
+                         the first one only if the reader skips them silently (WantMixedLinkType on, or
+                         ErrorOnMismatchingLinkType off); no WriteInterfaceStats calls (see `ng_roundtrip_full`)
+    expect cfg lt ifs its : the packets the reader returns: one per WritePacketWithOptions call on an interface it
+                         returns packets of (all with WantMixedLinkType, else those with the first link type `lt`), `expPkt`
+    expPkt             : interface, CaptureLength = |data|, Length, data as written; options `normOpts opts` (numbers
+                         reduced to the width of their Go types: identity on in-range values, `normOpts_canon`);
+                         time `tsRead tsoff ts` = written time + TimestampOffset seconds (`tsRead_eq`)
+    idealPkt/idealAll  : the packets exactly as written (what the property demands)
+-/
 namespace Gp.C14.PcapNg
+open Gp Gp.PcapNg Gp.Gen.PcapNg
+
+/-! ## truncation -/
+
+/-- `readFileE` is `readFile` with offsets: same packets, same final error, same final reader. -/
+theorem ng_offsets_erase (cfg : Cfg) (inp : Bytes) :
+    (readFileE cfg inp).1.map Prod.fst = (readFile cfg inp).1 ∧ (readFileE cfg inp).2.1 = (readFile cfg inp).2.1 ∧
+    (readFileE cfg inp).2.2.2 = (readFile cfg inp).2.2 :=
+  readFileE_erase cfg inp
+
+/-- Crash points, for ANY input (in particular any written file) cut at ANY offset `k`: the reader returns
+    exactly the packets of the complete read that were completed at an offset ≤ k — unaltered, none invented,
+    a prefix of the complete sequence — and then
+      * the same final outcome at the same offset, if the complete read stopped at an offset ≤ k, or else
+      * io.EOF / io.ErrUnexpectedEOF, or an error wrapping one of them — the latter only if the complete read
+        went through a block in which the reader wraps its read errors (`nWrap` counts those reads). -/
+theorem ng_prefix (cfg : Cfg) (inp : Bytes) (k : Nat) (hg : ¬ isGzip inp) :
+    (readFileE cfg (inp.take k)).1 = (readFileE cfg inp).1.filter (fun x => decide (x.2 ≤ k)) ∧
+    (∃ m, (readFileE cfg (inp.take k)).1 = (readFileE cfg inp).1.take m) ∧
+    (((readFileE cfg inp).2.2.1 ≤ k ∧ (readFileE cfg (inp.take k)).2.1 = (readFileE cfg inp).2.1 ∧
+        (readFileE cfg (inp.take k)).2.2.1 = (readFileE cfg inp).2.2.1) ∨
+     (k < (readFileE cfg inp).2.2.1 ∧ ShortE (readFileE cfg (inp.take k)).2.1 ∧
+        ((readFileE cfg (inp.take k)).2.1 = .werr → 0 < (readFileE cfg inp).2.2.2.w.nWrap))) := by
+  have h := readFileE_cut cfg inp k hg
+  obtain ⟨m, hm⟩ := readFileE_filter_take cfg inp k
+  exact ⟨h.1, ⟨m, by rw [h.1, hm]⟩, h.2⟩
+
+/-- The same in terms of `readFile`: the packets read from the first `k` bytes are a prefix of the packets
+    read from the whole input, and the final error is the complete read's or a (possibly wrapped) EOF. -/
+theorem ng_prefix_packets (cfg : Cfg) (inp : Bytes) (k : Nat) (hg : ¬ isGzip inp) :
+    (∃ m, (readFile cfg (inp.take k)).1 = (readFile cfg inp).1.take m) ∧
+    ((readFile cfg (inp.take k)).2.1 = (readFile cfg inp).2.1 ∨ ShortE (readFile cfg (inp.take k)).2.1) := by
+  have h := ng_prefix cfg inp k hg
+  obtain ⟨m, hm⟩ := h.2.1
+  have e1 := readFileE_erase cfg inp
+  have e2 := readFileE_erase cfg (inp.take k)
+  refine ⟨⟨m, ?_⟩, ?_⟩
+  · rw [← e2.1, ← e1.1, hm, List.map_take]
+  · rw [← e2.2.1, ← e1.2.1]
+    rcases h.2.2 with h3 | h3
+    · exact Or.inl h3.2.1
+    · exact Or.inr h3.2.1
+
+/-- `ng_prefix` is not vacuous: the cut of a file (section header, interface, one enhanced packet with 2 data
+    bytes, ending at offset 84) inside the packet block returns no packet and io.ErrUnexpectedEOF. -/
+example : (readFile {} (List.take 80 [0x0a, 0x0d, 0x0d, 0x0a, 28, 0, 0, 0, 0x4d, 0x3c, 0x2b, 0x1a, 1, 0, 0, 0,
+      0xff, 0xff, 0xff, 0xff, 0xff, 0xff, 0xff, 0xff, 28, 0, 0, 0,
+      1, 0, 0, 0, 20, 0, 0, 0, 1, 0, 0, 0, 0, 0, 0, 0, 20, 0, 0, 0,
+      6, 0, 0, 0, 36, 0, 0, 0, 0, 0, 0, 0, 0, 0, 0, 0, 1, 0, 0, 0, 2, 0, 0, 0, 2, 0, 0, 0, 0xde, 0xad, 0, 0,
+      36, 0, 0, 0])).2.1 = Err.ueof := by decide
+
+/-! ## round trip -/
+
+/-- Round trip, for EVERY well-formed file and reader options: the writer accepts every call, and NewNgReader +
+    ReadPacketData(WithOptions) / ZeroCopyReadPacketData(WithOptions) until the first failure return exactly one
+    packet per WritePacketWithOptions call on an interface whose packets the reader returns (all of them with
+    WantMixedLinkType, else those with the first interface's link type; the others are skipped), in order (`expect`),
+    then a clean io.EOF with all input consumed and no
+    wrapped error; the reader's section info is the written one, its interfaces are the written ones (name,
+    comment, description, filter, OS, link type, snap length, TimestampOffset, resolution 9 — empty strings stay
+    empty), its link type is the first interface's (unless WantMixedLinkType). -/
+theorem ng_roundtrip (cfg : Cfg) (f : FileSpec) (hw : WfFile cfg f) :
+    (writeFile f).2 = 0 ∧
+    ∃ rf, readFile cfg (writeFile f).1 = (expect cfg f.if0.linkType [f.if0] f.items, .eof, rf) ∧
+      rf.s.sect = f.sect ∧ rf.s.ifaces = (finalIfs [f.if0] f.items).map ifaceOf ∧
+      rf.s.linkType = (if cfg.mixed then 0 else f.if0.linkType) ∧ rf.w.inp = [] ∧ rf.w.nWrap = 0 := by
+  obtain ⟨h0, rf, h1, h2, h3, h4⟩ := readFile_written cfg f hw
+  exact ⟨h0, rf, h1, congrArg Core.sect h2, congrArg Core.ifaces h2, congrArg Core.linkType h2, h3, h4⟩
+
+/-- `ng_roundtrip` is not vacuous: a file with section strings (one empty), an interface with options, a second
+    interface of ANOTHER link type (its packet is skipped by this reader), packets with comments (one empty, lengths
+    not multiple of 4), flags, hashes, drop count, packet id, queue, verdicts and a secrets block is well-formed. -/
+example : WfFile {}
+    { sect := { app := [97, 98, 99], comment := [], hardware := [104], os := [111, 115] },
+      if0 := { name := [101, 116, 104, 48], descr := [100], filter := [102], linkType := 1, tsoff := 0, snaplen := 65535 },
+      items := [.pkt 0 1500000000123456789 60 [1, 2, 3] { comments := [[], [99, 111, 109]], flags := some ⟨1, 4, 32, 65536⟩, hashes := [(2, [1, 2, 3, 4])], dropCount := some 7, packetId := some 9, queue := some 1, verdicts := [(0, [5])] },
+                .iface { name := [98], linkType := 105 },
+                .dsb DSB_SECRETS_TYPE_TLS [1, 2, 3, 4, 5],
+                .pkt 1 0 0 [] {}] } := by
+  refine ⟨by decide, by decide, ⟨by decide, by decide, by decide, by decide, by decide, by decide, by decide, by decide⟩,
+    by decide, ?_⟩
+  refine ⟨⟨_, rfl, Or.inr (Or.inl rfl)⟩, by decide, by decide, by decide, ⟨by decide, by decide, by decide⟩, by decide, ?_⟩
+  refine ⟨⟨by decide, by decide, by decide, by decide, by decide, by decide, by decide, by decide⟩, by decide, ?_⟩
+  refine ⟨by decide, by decide, ?_⟩
+  exact ⟨⟨_, rfl, Or.inr (Or.inr rfl)⟩, by decide, by decide, by decide, ⟨by decide, by decide, by decide⟩, by decide, trivial⟩
+
+/-- What a returned packet is: interface, lengths and data exactly as written; options with every number reduced
+    to the width of its Go type (comments — including empty ones — hashes, verdicts byte for byte); time =
+    `tsRead` of the interface's TimestampOffset and the written UnixNano. -/
+theorem ng_roundtrip_packet (cfg : Cfg) (sp : IfaceSpec) (iface : Nat) (ts : Int) (len : Nat) (data : Bytes) (opts : PktOpts) :
+    (expPkt cfg sp iface ts len data opts).data = data ∧
+    (expPkt cfg sp iface ts len data opts).ci.caplen = data.length ∧
+    (expPkt cfg sp iface ts len data opts).ci.len = len ∧
+    (expPkt cfg sp iface ts len data opts).ci.iface = iface ∧
+    (expPkt cfg sp iface ts len data opts).ancil = (if cfg.mixed then some sp.linkType else none) ∧
+    (expPkt cfg sp iface ts len data opts).opts.comments = opts.comments ∧
+    (expPkt cfg sp iface ts len data opts).opts = normOpts opts ∧
+    (expPkt cfg sp iface ts len data opts).ci.ts = tsRead sp.tsoff ts := by
+  simp only [expPkt, normOpts, and_self]
+
+/-- Option values within the width of their Go types read back unchanged. -/
+theorem ng_roundtrip_options (o : PktOpts) (h : CanonOpts o) : normOpts o = o := normOpts_canon o h
+
+/-- Timestamps: a written time `ts` (UnixNano, a non-negative int64) reads back as `ts` plus the interface's
+    TimestampOffset in SECONDS (as long as that fits an int64) — the written time itself iff the offset is 0. -/
+theorem ng_roundtrip_time (tsoff : Nat) (ts : Int) (h0 : 0 ≤ ts) (h1 : ts < 9223372036854775808)
+    (h2 : ts / 1000000000 + tsoff < 9223372036854775808) :
+    tsRead tsoff ts = ⟨ts / 1000000000 + tsoff, ts % 1000000000⟩ ∧ (tsoff = 0 → tsRead tsoff ts = timeOfNanos ts) := by
+  refine ⟨tsRead_eq tsoff ts h0 h1 h2, fun h => ?_⟩
+  subst h
+  exact tsRead_zero ts h0 h1
+
+/-- The round trip is the identity — the packets exactly as written — when no interface has a TimestampOffset,
+    the times are non-negative int64 values and the option values are within their types. -/
+theorem ng_roundtrip_identity (cfg : Cfg) (f : FileSpec) (hw : WfFile cfg f) (hoff : f.if0.tsoff = 0)
+    (hp : PlainItems f.items) :
+    ∃ rf, readFile cfg (writeFile f).1 = (idealAll cfg f.if0.linkType [f.if0] f.items, .eof, rf) := by
+  obtain ⟨_, rf, h1, _⟩ := ng_roundtrip cfg f hw
+  refine ⟨rf, ?_⟩
+  rw [h1, expect_ideal cfg f.if0.linkType f.items [f.if0] (fun sp hsp => by simp only [List.mem_singleton] at hsp; rw [hsp]; exact hoff) hp]
+
+/-- The full property as stated in C14: every well-formed file — WriteInterfaceStats calls included (`WfFileAll`) —
+    reads back exactly as written (`idealAll`), then io.EOF.  It is FALSE for the code as it is: see
+    `ng_roundtrip_tsoffset_counterexample`.  Proved: `ng_roundtrip` (what is read back, always, for files without
+    WriteInterfaceStats calls) and `ng_roundtrip_identity` (identity without TimestampOffset).  Missing from the proved
+    part (covered by the correspondence run and the monitors only): files with WriteInterfaceStats blocks. -/
+def ng_roundtrip_full : Prop :=
+  ∀ (cfg : Cfg) (f : FileSpec), WfFileAll cfg f →
+    ∃ rf, readFile cfg (writeFile f).1 = (idealAll cfg f.if0.linkType [f.if0] f.items, .eof, rf)
+
+/-- `ng_roundtrip_full` restricted to what is proved: the conclusion of the full property under the explicit hypotheses
+    that exclude the TimestampOffset defect (`tsoff = 0` for the first interface, `PlainItems` for the added ones;
+    `PlainItems` also bounds times and option numbers to their Go types) and the unproved part (`WfFile`: no
+    WriteInterfaceStats calls). -/
+theorem ng_roundtrip_partial (cfg : Cfg) (f : FileSpec) (hw : WfFile cfg f) (hoff : f.if0.tsoff = 0)
+    (hp : PlainItems f.items) :
+    ∃ rf, readFile cfg (writeFile f).1 = (idealAll cfg f.if0.linkType [f.if0] f.items, .eof, rf) :=
+  ng_roundtrip_identity cfg f hw hoff hp
+
+/-- the extra hypotheses of `ng_roundtrip_partial` are satisfiable by a non-trivial item list: a packet with an empty
+    comment and flags, a second interface, a packet on it. -/
+example : PlainItems [.pkt 0 1500000000123456789 60 [1, 2, 3] { comments := [[]], flags := some ⟨1, 4, 32, 65536⟩ },
+    .iface { name := [98], linkType := 105 }, .pkt 1 0 0 [] {}] := by
+  refine ⟨by decide, by decide, ⟨?_, ?_, ?_, ?_, ?_, ?_⟩, rfl, by decide, by decide, ⟨?_, ?_, ?_, ?_, ?_, ?_⟩, trivial⟩
+  · intro f h; cases h; decide
+  · intro h hh; cases hh
+  · intro h hh; cases hh
+  · intro v h; cases h
+  · intro v h; cases h
+  · intro v h; cases h
+  · intro f h; cases h
+  · intro h hh; cases hh
+  · intro h hh; cases hh
+  · intro v h; cases h
+  · intro v h; cases h
+  · intro v h; cases h
+
+/-- The defect: with NgInterface.TimestampOffset ≠ 0 the packets do NOT read back as written (the writer stores the
+    absolute time AND the if_tsoffset option, the reader adds the offset) — one interface with offset 1 s, one
+    empty packet at time 0 reads back at time 1 s. -/
+theorem ng_roundtrip_tsoffset_counterexample : ¬ ng_roundtrip_full := by
+  intro h
+  have hw : WfFile {} { if0 := { tsoff := 1 }, items := [.pkt 0 0 0 [] {}] } := by
+    refine ⟨by decide, by decide, ⟨by decide, by decide, by decide, by decide, by decide, by decide, by decide, by decide⟩,
+      by decide, ?_⟩
+    exact ⟨⟨_, rfl, Or.inr (Or.inl rfl)⟩, by decide, by decide, by decide, ⟨by decide, by decide, by decide⟩, by decide, trivial⟩
+  obtain ⟨rf, h1⟩ := h {} _ (wfFileAll_of_wf hw)
+  obtain ⟨_, rf', h2, _⟩ := ng_roundtrip {} _ hw
+  rw [h2] at h1
+  have h3 : expect {} 1 [{ tsoff := 1 }] [.pkt 0 0 0 [] {}] = idealAll {} 1 [{ tsoff := 1 }] [.pkt 0 0 0 [] {}] :=
+    congrArg Prod.fst h1
+  exact absurd h3 (by decide)
+
+/-! ## truncated written files -/
+
+/-- Crash points of a WRITTEN file: cut at any offset `k`, the reader returns a prefix of the written packets
+    (exactly those completed at an offset ≤ k) and then io.EOF or io.ErrUnexpectedEOF — never an error of its own,
+    never a wrapped one, never an altered or invented packet. -/
+theorem ng_prefix_written (cfg : Cfg) (f : FileSpec) (hw : WfFile cfg f) (k : Nat) :
+    (∃ m, (readFile cfg ((writeFile f).1.take k)).1 = (expect cfg f.if0.linkType [f.if0] f.items).take m) ∧
+    ((readFile cfg ((writeFile f).1.take k)).2.1 = .eof ∨ (readFile cfg ((writeFile f).1.take k)).2.1 = .ueof) := by
+  obtain ⟨_, rf, h1, _, _, _, _, hnw⟩ := ng_roundtrip cfg f hw
+  have hg : ¬ isGzip (writeFile f).1 := written_not_gzip f
+  have hp := ng_prefix cfg (writeFile f).1 k hg
+  have e1 := readFileE_erase cfg (writeFile f).1
+  have e2 := readFileE_erase cfg ((writeFile f).1.take k)
+  rw [h1] at e1
+  obtain ⟨m, hm⟩ := hp.2.1
+  refine ⟨⟨m, ?_⟩, ?_⟩
+  · rw [← e2.1, hm, List.map_take, e1.1]
+  · rw [← e2.2.1]
+    rcases hp.2.2 with h3 | h3
+    · left; rw [h3.2.1, e1.2.1]
+    · obtain ⟨_, hs, hwr⟩ := h3
+      rcases hs with h | h | h
+      · exact Or.inl h
+      · exact Or.inr h
+      · have := hwr h
+        rw [e1.2.2, hnw] at this
+        exact absurd this (Nat.lt_irrefl 0)
+
+/-! ## copying and zero-copy calls -/
+
+/-- Copying and zero-copy calls run the same reader program (the model has one `readPacket` for both: outcome,
+    packet fields and options are identical by construction); they differ only in where the data bytes live.  For a
+    data read that completed, the slice handed to the caller holds exactly the bytes the stream delivered — for the
+    copying call (fresh buffer, grown incrementally) and for the zero-copy call (reused / pre-allocated packet
+    buffer), whatever stale contents the reused buffer had. -/
+theorem zero_copy_same (m m' : Mem) (n : Nat) (got : Bytes) (snap : Nat) (hg : got.length = n) :
+    (memStep true m (.data n got snap)).view = some got ∧ (memStep false m' (.data n got snap)).view = some got :=
+  ⟨memStep_view true m n got snap hg, memStep_view false m' n got snap hg⟩
+
+/-- The zero-copy call allocates nothing once its packet buffer is large enough. -/
+theorem zero_copy_reuses (m : Mem) (b : Bytes) (n : Nat) (got : Bytes) (snap : Nat) (hb : m.pbuf = some b) (h : n ≤ b.length) :
+    (memStep true m (.data n got snap)).allocs = [] :=
+  memStep_zero_reuse m b n got snap hb h
+
 end Gp.C14.PcapNg
